@@ -71,6 +71,9 @@ Fixpoint nm_expr (inn : bool) (e : expr) {struct e} : list string :=
        flat_map (fun c => match c with
                           | CFor t e _ => (nm_target inn t ++ nm_expr inn e)%list
                           | CIf c => nm_expr inn c end) cls)%list
+  | ESlice x lo hi st _ =>
+      let o (e : option expr) := match e with Some e => nm_expr inn e | None => [] end in
+      (nm_expr inn x ++ o lo ++ o hi ++ o st)%list
   end
 with nm_target (inn : bool) (t : target) {struct t} : list string :=
   match t with
@@ -137,6 +140,11 @@ Fixpoint fd_expr (fid : nat) (encl : list string) (e : expr) {struct e} : option
         first_some (fun c => match c with
                              | CFor t e _ => match fd_target fid encl' t with Some d => Some d | None => fd_expr fid encl' e end
                              | CIf c => fd_expr fid encl' c end) cls end end
+  | ESlice x lo hi st _ =>
+      let o (e : option expr) := match e with Some e => fd_expr fid encl e | None => None end in
+      match fd_expr fid encl x with Some d => Some d | None =>
+      match o lo with Some d => Some d | None =>
+      match o hi with Some d => Some d | None => o st end end end
   end
 with fd_target (fid : nat) (encl : list string) (t : target) {struct t} : option (fundef * list string) :=
   match t with
@@ -311,6 +319,15 @@ Section Ref.
             Ok (acc, s2)
         | _ => Unsup "static:comprehension"
         end
+    | ESlice x lo hi st ps =>
+        let opt (e : option expr) (s : rst) : res (value * rst) :=
+          match e with Some e => eval n stk ρ e s | None => Ok (VNone, s) end in
+        do (vx, s1) <- eval n stk ρ x s;
+        do (vlo, s2) <- opt lo s1;
+        do (vhi, s3) <- opt hi s2;
+        do (vst, s4) <- opt st s3;
+        do (r, w) <- lift (slice_op vx vlo vhi vst (rw s4)) ps (rw s4);
+        Ok (r, with_w s4 w)
     end end
 
   with evals (n : nat) (stk : list nat) (ρ : env) (es : list expr) (s : rst) {struct n} : res (list value * rst) :=
